@@ -8,7 +8,7 @@ from spec import frames as F
 LEVEL = "exploration"
 RULE = ("all 8192 13-bit codes through common.altitude and in DF0/4/16/20 carriers, all 4096 12-bit fields in TC9-18 "
         "and TC20-22, TC5-8 -> 0; backgrounds zeros/ones/0x55/0xAA/seeded for every other bit, plus every single other "
-        "bit flipped (bg-1) for a subset of codes (all codes in thorough); distinct = distinct (decoder, code) pairs "
+        "bit flipped (bg-1) for a subset of codes (all codes in thorough); every sequence of <= 4 (5) decodes (with repetitions) over {zero, Q=1, Gillham, illegal, metric, 0 ft} codes through each decoder in one process; distinct = distinct (decoder, code) pairs "
         "whose expected value is not None")
 ASSUMPTIONS = [
     "expected table built by encoding: Q=1 N->25N-1000; Gillham from -1200..126700 step 100 (1280 codes); "
@@ -130,9 +130,46 @@ def w_codes(arg):
     return acc.res()
 
 
+SEQ_CODES = [0, A.q1_encode(1600), A.gillham_encode(51000), 0x0001, 0x0840, A.q1_encode(40)]   # zero, Q=1, Gillham, illegal Gillham, metric, 0 ft
+
+
+def w_seq(arg):
+    """every sequence of <= depth decodes over a small code alphabet (with repetitions) through one decoder in one
+    process: every step must give the table value (last-value memos, carried state)."""
+    import itertools
+    kind, depth = arg
+    acc = Acc()
+    for L in range(1, depth + 1):
+        for seq in itertools.product(range(len(SEQ_CODES)), repeat=L):
+            for i, ci in enumerate(seq):
+                code = SEQ_CODES[ci]
+                if kind == "bits":
+                    msg = None
+                elif kind == "adsb":
+                    if code >= 4096 or (code >> 6) & 1:
+                        code = code & 0xFBF & 0xFFF
+                    c12 = ((code >> 7) << 6) | (code & 0x3F)
+                    msg = _es_frame(11, c12, (i * 0x1111111111) & ((1 << 51) - 1), 0x406B90, 5, 17, 0)
+                    code = c12
+                else:
+                    msg = _ac_frame(20 if i % 2 else 4, code, i % 3, i, 0xABCDEF)
+                acc.n += 1
+                sig = judge(kind, code, msg)
+                if sig:
+                    acc.bad(sig + ":in_a_call_sequence", {"kind": kind, "code": code, "msg": msg, "sequence": [SEQ_CODES[c] for c in seq[:i + 1]]})
+                    break
+    acc.out.add(("seq", kind))
+    return acc.res()
+
+
+def w_any(t):
+    return w_seq(t[1]) if t[0] == "q" else w_codes(t[1])
+
+
 def run(ctx):
     step = 64
-    ctx.pmap(w_codes, [(lo, lo + step, ctx.seed, ctx.thorough) for lo in range(0, 8192, step)])
+    ctx.pmap(w_any, [("c", (lo, lo + step, ctx.seed, ctx.thorough)) for lo in range(0, 8192, step)] +
+             [("q", (k, 5 if ctx.thorough else 4)) for k in ("bits", "altcode", "adsb")])
     ctx.cov["exhaustive"] = True
     ctx.cov["bound"] = "all 8192/4096 codes; bg-1 on %s" % ("all codes" if ctx.thorough else "a 31-code subset")
     ctx.cov["gillham_codes"] = len(GIL)
@@ -140,4 +177,4 @@ def run(ctx):
 
 def replay(case):
     sig = judge(case["kind"], case["code"], case.get("msg"))
-    return [(sig, case)] if sig else []
+    return [(sig, case), (sig + ":in_a_call_sequence", case)] if sig else []
